@@ -341,6 +341,10 @@ EQUIV = [
     ("a > b > X", "a > (b > X)", "x"),
     ("a > b > X", "a(b(!X))", "x"),
     ("f() as r", "f(!#value as r)", "#value"),
+    ("g > f() as r", "g > f(!#value as r)", "#value"),
+    ("h(A) > g > f() as r", "h(A) > g > f(!#value as r)", "#value"),
+    ("g > (f() as r)", "g(f(!#value as r))", "#value"),
+    ("g > f(A) as r", "g > f(A, !#value as r)", "#value"),
     ("$xD", "* as xD", None),
     ("f > $xD", "f > * as xD", None),
     ("f($xD) > y", "f(* as xD) > y", None),
@@ -442,3 +446,37 @@ def u_interning(c):
     c.prove("call/same-object-for-equal-fields", k1 is k2)
     k3 = it.call(Call, [], dict(element=e1, captures=(e2,), immediate=True))
     c.prove("call/different-field-different-object", k3 is not k1)
+
+
+@unit("_resolve-element", ["C18", "C11"], [S + ":_resolve", S + ":_eval", S + ":Element.clone"])
+def u_resolve_element(c):
+    """Resolution of one element: a category that is given (not None) and is not a Tag -- whatever its value, including 0,
+    '' and other falsy values -- is refused with the documented TypeError; None and tags are accepted; an element without
+    capture name gets a fresh /<n> capture."""
+    it = Interp(c)
+    Element = it.get_global(S, "Element")
+    k = c.choose(3, "category")
+    if k == 0:
+        cat = None
+    elif k == 1:
+        cat = it.getattr(it.get_global("ptera.tags", "tag"), "T")
+    else:
+        cat = c.val("category")  # any non-tag value: ints (0 included), strings ('' included), booleans, user objects
+        c.assume(z3.And(z3.Not(Val.is_none(cat.t)), z3.Not(Val.is_ref(cat.t)), z3.Not(Val.is_absent(cat.t))))
+    capname = [None, "x"][c.choose(2, "capture")]
+    el = mk_obj(it, S, "Element", name="x", value=it.models.absent(it), category=cat, capture=capname, tags=frozenset())
+    # interning with a symbolic category would fork on every cached key: the clone is observed through a ghost call
+    cloned = []
+
+    def clone(it_, f, a, k_):
+        cloned.append(dict(k_))
+        return a[0]
+
+    it.policies[S + ":Element.clone"] = clone
+    st, r = run(it, it.get_global(S, "_resolve"), [el, {}, iter(range(7, 100))])
+    if k == 2:
+        c.prove("non-tag-category/TypeError-for-every-value", st == "raise" and isinstance(r, TypeError), note="category given but not a Tag")
+    else:
+        c.prove("tag-or-none/accepted", st == "ok" and len(cloned) == 1 and cloned[0]["category"] is cat)
+        if st == "ok":
+            c.prove("capture/fresh-name-iff-none", cloned[0]["capture"] == ("/7" if capname is None else capname))
